@@ -157,6 +157,11 @@ var (
 	rReslice0 = Rule{"OWN-RESLICE0", rules.OwnReslice0(rules.ScopeWriter)}
 	rEscRune  = Rule{"TAB-ESCRUNE", rules.TabEscRune}
 	rEncPure  = Rule{"OWN-ENCPURE", rules.OwnEncPure}
+	rOverrun  = Rule{"TAB-OVERRUN", rules.TabOverrun}
+	rAppCarry = Rule{"ORD-APPENDCARRY", rules.OrdAppendCarry}
+	rSymQuote = Rule{"OWN-SYMQUOTE", rules.OwnSymQuote}
+	rAdjMax   = Rule{"TAB-ADJUSTMAX", rules.TabAdjustMax}
+	rLenCount = Rule{"TAB-LENCOUNT", rules.TabLenCount}
 	rFixedLST = Rule{"OWN-FIXEDLST", rules.OwnFixedLST}
 	rReflSet  = Rule{"TAB-REFLECTSET", rules.TabReflectSet}
 	rBounds   = Rule{"TAB-BOUNDS", rules.TabBounds}
@@ -179,16 +184,17 @@ const tabTech = "constant-table extraction from SSA (enum value-set dataflow ove
 
 var registry = map[string]*Property{
 	"C01": {
-		Decided:    "The finite tables of the writers and the readers are inverse of each other: every single-letter escape the text writer spells is mapped back to the same byte by the text reader and the needs-escaping tests cover delimiter, backslash and control characters (TAB-ESCAPE, writer obligations); typed-null spellings written = names the reader dispatches on = the 13 Ion type names (TAB-NULLKW); identifier-shaped text with a non-symbol meaning is quoted when written as a symbol (TAB-KEYWORD); binary type codes, per-code value types, float sizes and typed-null bytes equal the Ion 1.0 tables (TAB-TYPECODE); every value the writers open is closed on each success path, annotation wrappers included (ORD-VALUE); in Finish the version marker precedes the symbol table, which precedes the buffered values (ORD-LSTFIRST); every length the binary writer declares is computed with the codec, and for the operand, that the payload is appended with (TAB-LENPAY); each binary field uses the codec family Ion 1.0 prescribes on the writing and on the reading side (TAB-CODEC); a symbol token's text is never reinterpreted as a '$n' ID nor replaced by the token's source SID when written (OWN-TEXTAUTH). A flag bit ORed onto a VarUInt/VarInt octet never overlaps the payload (NUM-FLAGOR); a float is classified as zero on the output side only together with its sign bit (NUM-ZEROSIGN); no function that distinguishes negative zero decides a Decimal's sign from its coefficient where the flag may be set (ORD-DECSIGN). A slice emptied by reslicing is not stored into a writer field while a value read from the same field is still used (OWN-RESLICE0).",
+		Decided:    "The finite tables of the writers and the readers are inverse of each other: every single-letter escape the text writer spells is mapped back to the same byte by the text reader and the needs-escaping tests cover delimiter, backslash and control characters (TAB-ESCAPE, writer obligations); typed-null spellings written = names the reader dispatches on = the 13 Ion type names (TAB-NULLKW); identifier-shaped text with a non-symbol meaning is quoted when written as a symbol (TAB-KEYWORD); binary type codes, per-code value types, float sizes and typed-null bytes equal the Ion 1.0 tables (TAB-TYPECODE); every value the writers open is closed on each success path, annotation wrappers included (ORD-VALUE); in Finish the version marker precedes the symbol table, which precedes the buffered values (ORD-LSTFIRST); every length the binary writer declares is computed with the codec, and for the operand, that the payload is appended with (TAB-LENPAY); each binary field uses the codec family Ion 1.0 prescribes on the writing and on the reading side (TAB-CODEC); a symbol token's text is never reinterpreted as a '$n' ID nor replaced by the token's source SID when written (OWN-TEXTAUTH). A flag bit ORed onto a VarUInt/VarInt octet never overlaps the payload (NUM-FLAGOR); a float is classified as zero on the output side only together with its sign bit (NUM-ZEROSIGN); no function that distinguishes negative zero decides a Decimal's sign from its coefficient where the flag may be set (ORD-DECSIGN). A slice emptied by reslicing is not stored into a writer field while a value read from the same field is still used (OWN-RESLICE0). Text taken from a SymbolToken reaches a raw output call of the text writer only in a function that asks symbolIdentifier about it (OWN-SYMQUOTE); no element count (len of anything but bytes) is handed to a length encoder (TAB-LENCOUNT).",
 		Necessary:  "A byte escaped as \\X that the reader maps elsewhere, a typed null spelled with another type's name, a reserved word written unquoted, a type code decoded as another type, an unclosed 0xE0 wrapper or a table emitted after its values each change or lose a value named in the property's quantifier.",
 		NotDecided: "payload encodings (ints, floats, decimals, timestamps), xLen = len(appendX), float/decimal/timestamp formatting; each codec's own length function (len(appendX(v)) = xLen(v))",
-		Technique:  tabTech + "; CFG/SSA pairing for ORD; " + "codec-family pairing (length function vs append function per operand, by SSA path) and codec tables compared with Ion 1.0" + "; call-graph fixed point and value flow for OWN-TEXTAUTH" + "; interval check of flag/payload bit overlap (NUM-FLAGOR, with field invariants from every store to an unexported field); dominance of float-zero tests by Signbit tests" + "; alias check on s[:0] stores",
+		Technique:  tabTech + "; CFG/SSA pairing for ORD; " + "codec-family pairing (length function vs append function per operand, by SSA path) and codec tables compared with Ion 1.0" + "; call-graph fixed point and value flow for OWN-TEXTAUTH" + "; interval check of flag/payload bit overlap (NUM-FLAGOR, with field invariants from every store to an unexported field); dominance of float-zero tests by Signbit tests" + "; alias check on s[:0] stores" + "; def-use closure from SymbolToken.Text to raw writes; type check of len() operands reaching length encoders",
 		DesignRef:  "DESIGN.md §3.4, §3.5, §4 C01",
 		Rules: []Rule{
 			only(rEscape, 18, whatHas("writer:")), rNullKW, rKeyword, rTypecode, rOrdValue, rOrdLstFirst,
 			rLenPay, rCodec, rTextAuth,
 			rFlagOr, rZeroSign, rDecSign,
 			rReslice0,
+			rSymQuote, rLenCount,
 		},
 	},
 	"C02": {
@@ -204,48 +210,51 @@ var registry = map[string]*Property{
 		},
 	},
 	"C03": {
-		Decided:    "The binary reader's type-code table, the value type stored for each type code and the accepted float sizes equal the Ion 1.0 tables (TAB-TYPECODE, reader obligations); validateAnnotatedValue special-cases exactly the type codes whose low nibble bitstream.Next does not read as a body length, so a wrapper around true/false or a sorted struct is measured correctly (TAB-NIBBLE); each field is decoded with the primitive Ion 1.0 prescribes (TAB-CODEC, reader obligations); the VarUInt/VarInt accumulators cannot drop high bits and every narrowing in the bitstream and binary reader is in range (NUM-SHIFT, NUM-NARROW, bitstream obligations); bytes handed to the caller never alias the read buffer (OWN-INPUT, Peek obligations); every value decoder consumes exactly the declared length of the current value (TAB-BUDGET); once Next has replaced the tag's nibble by a decoded length it no longer reads 14 and 15 as 'length follows' and 'null' (TAB-NIBBLE-NEXT); a decimal's negative-zero flag comes from the coefficient's sign bit (ORD-DECNEGZERO); no unsigned length or position subtraction in the bitstream can wrap below zero (NUM-USUB). The symbols list of a local symbol table yields one entry per element on every path round its loop (ORD-APPENDEACH); a struct is taken for a symbol table by its first annotation only (TAB-LSTFIRSTANN); leaving a value always passes clear() (ORD-BSCLEAR).",
+		Decided:    "The binary reader's type-code table, the value type stored for each type code and the accepted float sizes equal the Ion 1.0 tables (TAB-TYPECODE, reader obligations); validateAnnotatedValue special-cases exactly the type codes whose low nibble bitstream.Next does not read as a body length, so a wrapper around true/false or a sorted struct is measured correctly (TAB-NIBBLE); each field is decoded with the primitive Ion 1.0 prescribes (TAB-CODEC, reader obligations); the VarUInt/VarInt accumulators cannot drop high bits and every narrowing in the bitstream and binary reader is in range (NUM-SHIFT, NUM-NARROW, bitstream obligations); bytes handed to the caller never alias the read buffer (OWN-INPUT, Peek obligations); every value decoder consumes exactly the declared length of the current value (TAB-BUDGET); once Next has replaced the tag's nibble by a decoded length it no longer reads 14 and 15 as 'length follows' and 'null' (TAB-NIBBLE-NEXT); a decimal's negative-zero flag comes from the coefficient's sign bit (ORD-DECNEGZERO); no unsigned length or position subtraction in the bitstream can wrap below zero (NUM-USUB). The symbols list of a local symbol table yields one entry per element on every path round its loop (ORD-APPENDEACH); a struct is taken for a symbol table by its first annotation only (TAB-LSTFIRSTANN); leaving a value always passes clear() (ORD-BSCLEAR). A decoded length is compared with the space left after its own length field (TAB-OVERRUN); imports: $ion_symbol_table hands back nothing only when there is no current table (ORD-APPENDCARRY).",
 		Necessary:  "A type code decoded as another type, a refused float size, or a wrapper length check that misreads a bool's nibble (finding F13, fixed) rejects or misdecodes a valid encoding.",
 		NotDecided: "VarUInt/VarInt arithmetic, padding, NOP handling, struct ordering, lengths (behavioural); TAB-BUDGET of the design was not built",
-		Technique:  tabTech + "; " + "codec-family pairing (length function vs append function per operand, by SSA path) and codec tables compared with Ion 1.0" + "; " + numTech + "; escape walk of bufio.Reader.Peek results" + "; must-pass-through (append per loop iteration; clear() after a state store)",
+		Technique:  tabTech + "; " + "codec-family pairing (length function vs append function per operand, by SSA path) and codec tables compared with Ion 1.0" + "; " + numTech + "; escape walk of bufio.Reader.Peek results" + "; must-pass-through (append per loop iteration; clear() after a state store)" + "; edge-condition check of the exits of the append case",
 		DesignRef:  "DESIGN.md §3.4, §4 C03",
 		Rules: []Rule{
 			only(rTypecode, 30, whatLacks("binaryNulls[")), rNibble,
 			only(rCodec, 8, whatHas("decode")), only(rShift, 5, posHas("ion/bitstream.go")), only(rNarrow, 15, posHas("ion/bitstream.go", "ion/binaryreader.go")),
 			only(rOwnInput, 2, whatHas("slice returned by Peek")), rBudget, rNibNext, rDecNZ, only(rUSub, 8, posHas("ion/bitstream.go")),
 			rAppEach, rLSTAnn, rBSClear,
+			rOverrun, rAppCarry,
 		},
 	},
 	"C04": {
-		Decided:    "Binary typed-null bytes written equal the Ion 1.0 table (TAB-TYPECODE, writer obligations); text typed-null spellings are the 13 Ion type names (TAB-NULLKW, writer obligations); every single-letter escape the text writer spells denotes the written byte in the Ion 1.0 escape table, and the needs-escaping tests of strings, symbols and clobs cover delimiter, backslash, control characters and non-ASCII for clobs (TAB-ESCAPE, writer-vs-spec and predicate obligations); keywords are quoted when written as symbols (TAB-KEYWORD); every opened value/container/annotation wrapper is closed on each success path (ORD-VALUE); version marker before symbol table before values, fixed table before the first value (ORD-LSTFIRST); every declared length is computed with the codec and operand the payload is appended with, across the xLen/appendX and Len/EmitTo sibling pairs too (TAB-LENPAY); each field uses the codec Ion 1.0 prescribes (TAB-CODEC, writer obligations); no value is narrowed out of range on its way into the encoders, in particular no negative symbol ID (NUM-NARROW, writer files); IDs written come from this writer's table by text (OWN-TEXTAUTH, writer obligations). A flag bit ORed onto a VarUInt/VarInt octet never overlaps the payload (NUM-FLAGOR); a float is classified as zero only together with its sign bit (NUM-ZEROSIGN); negative zero's sign is never taken from the coefficient (ORD-DECSIGN); the text writer forgets an owed separator only on a path that writes to the output (ORD-SEPSTATE).",
+		Decided:    "Binary typed-null bytes written equal the Ion 1.0 table (TAB-TYPECODE, writer obligations); text typed-null spellings are the 13 Ion type names (TAB-NULLKW, writer obligations); every single-letter escape the text writer spells denotes the written byte in the Ion 1.0 escape table, and the needs-escaping tests of strings, symbols and clobs cover delimiter, backslash, control characters and non-ASCII for clobs (TAB-ESCAPE, writer-vs-spec and predicate obligations); keywords are quoted when written as symbols (TAB-KEYWORD); every opened value/container/annotation wrapper is closed on each success path (ORD-VALUE); version marker before symbol table before values, fixed table before the first value (ORD-LSTFIRST); every declared length is computed with the codec and operand the payload is appended with, across the xLen/appendX and Len/EmitTo sibling pairs too (TAB-LENPAY); each field uses the codec Ion 1.0 prescribes (TAB-CODEC, writer obligations); no value is narrowed out of range on its way into the encoders, in particular no negative symbol ID (NUM-NARROW, writer files); IDs written come from this writer's table by text (OWN-TEXTAUTH, writer obligations). A flag bit ORed onto a VarUInt/VarInt octet never overlaps the payload (NUM-FLAGOR); a float is classified as zero only together with its sign bit (NUM-ZEROSIGN); negative zero's sign is never taken from the coefficient (ORD-DECSIGN); the text writer forgets an owed separator only on a path that writes to the output (ORD-SEPSTATE). No element count (len of anything but bytes) is handed to a length encoder of the binary writer (TAB-LENCOUNT).",
 		Necessary:  "Each clause is checked against the specification embedded in the checker, not against this repository's reader: a wrong null byte or name, a raw delimiter, an unquoted keyword, an unclosed wrapper (declared length never patched) or a table after its values is ill-formed or denotes another value under any conforming decoder.",
 		NotDecided: "each codec's own length function (len(appendX(v)) = xLen(v) is arithmetic), separators and number formatting of the text writer",
-		Technique:  tabTech + "; CFG/SSA pairing for ORD; " + "codec-family pairing (length function vs append function per operand, by SSA path) and codec tables compared with Ion 1.0" + "; " + numTech + "; interval check of flag/payload bit overlap; must-pass-through of an output write around separator-state resets",
+		Technique:  tabTech + "; CFG/SSA pairing for ORD; " + "codec-family pairing (length function vs append function per operand, by SSA path) and codec tables compared with Ion 1.0" + "; " + numTech + "; interval check of flag/payload bit overlap; must-pass-through of an output write around separator-state resets" + "; type check of len() operands reaching length encoders",
 		DesignRef:  "DESIGN.md §3.4, §3.5, §4 C04",
 		Rules: []Rule{
 			only(rTypecode, 13, whatHas("binaryNulls[")), only(rNullKW, 13, whatHas("writer:")), only(rEscape, 20, whatHas("escapes when", "writer-vs-spec:")), rKeyword, rOrdValue, rOrdLstFirst,
 			rLenPay, only(rCodec, 25, whatLacks("decode")), only(rNarrow, 30, posHas("ion/binarywriter.go", "ion/bits.go", "ion/buf.go")), only(rTextAuth, 2, posHas("ion/binarywriter.go")),
 			rFlagOr, rZeroSign, rDecSign, rSepState,
+			rLenCount,
 		},
 	},
 	"C05": {
-		Decided:    "A symbol token's text is authoritative wherever a token is turned into bytes: (i) text taken from a SymbolToken is never handed to a parameter that is interpreted as a '$n' symbol-ID reference (symbolIdentifier with its ID result used, binaryWriter.resolve, Writer.WriteSymbolFromString, newSymbolToken — the set is computed from the call graph), in package ion and in the command's copy loop; (ii) in the binary writer a token's LocalSID becomes the ID to write only on the edge where its Text is nil, at the one place (resolveToken) all three uses — value, field name, annotation — go through; (iii) the text reader applies the '$n' interpretation only to unquoted identifier tokens (OWN-TEXTAUTH); no comparison of a LocalSID treats $0 differently from the positive IDs, so a symbol without text is copied like any other (TAB-SID0); no Reader field keeps a resolved token beyond the symbol table it was resolved in (OWN-TOKCACHE).",
+		Decided:    "A symbol token's text is authoritative wherever a token is turned into bytes: (i) text taken from a SymbolToken is never handed to a parameter that is interpreted as a '$n' symbol-ID reference (symbolIdentifier with its ID result used, binaryWriter.resolve, Writer.WriteSymbolFromString, newSymbolToken — the set is computed from the call graph), in package ion and in the command's copy loop; (ii) in the binary writer a token's LocalSID becomes the ID to write only on the edge where its Text is nil, at the one place (resolveToken) all three uses — value, field name, annotation — go through; (iii) the text reader applies the '$n' interpretation only to unquoted identifier tokens (OWN-TEXTAUTH); no comparison of a LocalSID treats $0 differently from the positive IDs, so a symbol without text is copied like any other (TAB-SID0); no Reader field keeps a resolved token beyond the symbol table it was resolved in (OWN-TOKCACHE). Text taken from a SymbolToken reaches a raw output call of the text writer only in a function that asks symbolIdentifier about it, so $n-shaped annotations, field names and values are quoted alike (OWN-SYMQUOTE).",
 		Necessary:  "The Reader attaches the source table's SID to every token. A writer that prefers LocalSID over text emits IDs of a table the output never declares (F6), and one that passes token text through the '$n' interpretation writes the symbol '$5' as symbol 5 (F5); both change the copied document whenever source and destination tables differ. Both were genuine defects on the pinned tree and were repaired (fix: f27bc41, 36b2787).",
 		NotDecided: "equivalence of whole documents across formats; that every reader accessor result is forwarded by the copy loop; the text writer's spelling of tokens without text ($n)",
-		Technique:  "call-graph fixed point for '$n'-interpreting parameters + SSA value-flow from SymbolToken.Text loads to call arguments; branch-fact dominance (Text == nil) at LocalSID uses; enum value-set dataflow of the token kind at newSymbolToken calls",
+		Technique:  "call-graph fixed point for '$n'-interpreting parameters + SSA value-flow from SymbolToken.Text loads to call arguments; branch-fact dominance (Text == nil) at LocalSID uses; enum value-set dataflow of the token kind at newSymbolToken calls" + "; forward def-use closure from loads of SymbolToken.Text to raw output calls",
 		DesignRef:  "DESIGN.md §3.6 OWN-TEXTAUTH, §4 C05, §0.7",
-		Rules:      []Rule{rTextAuth, rSid0, rTokCache},
+		Rules:      []Rule{rTextAuth, rSid0, rTokCache, rSymQuote},
 	},
 	"C06": {
-		Decided:    "In package ion: a pointer obtained from an accessor that returns (nil, nil) for a typed null is dereferenced only where it is known non-nil, with preconditions inferred through helper calls (NIL-ACC); such a pointer is not passed to a callee that dereferences it unguarded (NIL-ARG); the pointer fields documented nil-if-unknown (SymbolToken.Text/Source, ImportSource) are dereferenced only under a nil test of the same access path (NIL-FIELD); every panicking pop on the reader-side stacks is dominated by a non-emptiness fact (ORD-POPGUARD, reader obligations); on the input side every allocation with a non-constant size is sized by the length of data already in memory or by a value bounded by 2^20 — a declared length never sizes an allocation before the bytes exist (NUM-ALLOC, 2 residual rows); every index into a slice, string or array on the input side (240 sites) is inside the bounds by the loop that produces it, by a dominating comparison with the length of the same object, by the callee's length contract (Peek(n), readN(n)) or by what every call site establishes (NUM-INDEX, 7 residual rows); the same for the bounds of slice expressions in the reader, symbol-table, unmarshal and timestamp files (NUM-SLICE, 3 residual rows); every call on the input side to a module function that panics when an integer expression over its parameters leaves a range (Decimal.ShiftL/upscale ...) establishes that range at the call (OWN-PANICAPI); no subtraction of unsigned lengths, positions or budgets in the reader files can wrap below zero — the operands are ordered by their intervals, by a dominating comparison, or by the contract that a budgeted reader never consumes more than its budget (NUM-USUB, 2 residual rows).",
+		Decided:    "In package ion: a pointer obtained from an accessor that returns (nil, nil) for a typed null is dereferenced only where it is known non-nil, with preconditions inferred through helper calls (NIL-ACC); such a pointer is not passed to a callee that dereferences it unguarded (NIL-ARG); the pointer fields documented nil-if-unknown (SymbolToken.Text/Source, ImportSource) are dereferenced only under a nil test of the same access path (NIL-FIELD); every panicking pop on the reader-side stacks is dominated by a non-emptiness fact (ORD-POPGUARD, reader obligations); on the input side every allocation with a non-constant size is sized by the length of data already in memory or by a value bounded by 2^20 — a declared length never sizes an allocation before the bytes exist (NUM-ALLOC, 2 residual rows); every index into a slice, string or array on the input side (240 sites) is inside the bounds by the loop that produces it, by a dominating comparison with the length of the same object, by the callee's length contract (Peek(n), readN(n)) or by what every call site establishes (NUM-INDEX, 7 residual rows); the same for the bounds of slice expressions in the reader, symbol-table, unmarshal and timestamp files (NUM-SLICE, 3 residual rows); every call on the input side to a module function that panics when an integer expression over its parameters leaves a range (Decimal.ShiftL/upscale ...) establishes that range at the call (OWN-PANICAPI); no subtraction of unsigned lengths, positions or budgets in the reader files can wrap below zero — the operands are ordered by their intervals, by a dominating comparison, or by the contract that a budgeted reader never consumes more than its budget (NUM-USUB, 2 residual rows). Where bitstream.Next compares a length decoded from a separate VarUInt with the space left, that space has been reduced by the size of the length field (TAB-OVERRUN).",
 		Necessary:  "An unguarded dereference of a typed null's nil accessor result, or an unguarded pop, is a panic on an input that exists (null.int, $0, imports:null.symbol — findings F7, F8, F9, all fixed).",
 		NotDecided: "slice bounds inside the text formatters (decimal.go, textutils.go), explicit internal-consistency panics (bitstream.remaining/StepOut: pos <= end is arithmetic), loop termination, recursion depth, memory retained by deeply nested or very long valid input",
-		Technique:  "SSA must-dataflow of nil facts keyed by canonical access path, with inferred callee preconditions; " + numTech + " (allocation sizes, index and slice bounds, callee panic ranges evaluated at each call site)",
+		Technique:  "SSA must-dataflow of nil facts keyed by canonical access path, with inferred callee preconditions; " + numTech + " (allocation sizes, index and slice bounds, callee panic ranges evaluated at each call site)" + "; def-use check that the compared space depends on the length field's size",
 		DesignRef:  "DESIGN.md §3.2, §4 C06",
 		Rules: []Rule{
 			{"NIL-ACC", rules.NilAcc(rules.ScopeIon, 20)}, {"NIL-ARG", rules.NilArg(rules.ScopeIon, 0)}, {"NIL-FIELD", rules.NilField(rules.ScopeIon, 8)},
 			only(rOrdPopGuard, 2, funcHas("Reader", "bitstream", "tokenizer")),
 			rAlloc, rIndex, rSlice, rPanicAPI, rUSub,
+			rOverrun,
 		},
 	},
 	"C07": {
@@ -269,28 +278,28 @@ var registry = map[string]*Property{
 		Rules:      []Rule{rRefuse, only(rToken, 13, whatHas("skip arm")), rStepIn, rLobWS, rBudget, rBSClear, rTokFin},
 	},
 	"C09": {
-		Decided:    "Every insertion into a symbol text index (buildIndex, symbolTableBuilder.Add, Build) happens only when the text is not present yet, with imports consulted before locals, or copies an existing index (ORD-FIRSTWINS); NewSymbolTokenBySID looks an ID up only after 0 <= sid <= MaxID() was established and rejects everything else (ORD-SIDBOUND); a local table resolves text through its imports before its own index on every path (ORD-IMPORTFIRST); Build neither writes to the builder nor hands the builder's own symbols/index storage to the built table (OWN-BUILD); every table object is built with an index that describes exactly the symbols it holds (TAB-INDEXPAIR).",
+		Decided:    "Every insertion into a symbol text index (buildIndex, symbolTableBuilder.Add, Build) happens only when the text is not present yet, with imports consulted before locals, or copies an existing index (ORD-FIRSTWINS); NewSymbolTokenBySID looks an ID up only after 0 <= sid <= MaxID() was established and rejects everything else (ORD-SIDBOUND); a local table resolves text through its imports before its own index on every path (ORD-IMPORTFIRST); Build neither writes to the builder nor hands the builder's own symbols/index storage to the built table (OWN-BUILD); every table object is built with an index that describes exactly the symbols it holds (TAB-INDEXPAIR). Every table sst.Adjust(n) returns has max_id n: a new table stores the parameter, the receiver is returned only under maxID == s.maxID (TAB-ADJUSTMAX).",
 		Necessary:  "An index insert that overwrites gives the highest instead of the lowest ID for a text and lets the builder renumber a known symbol; an unchecked ID above MaxID is not rejected.",
 		NotDecided: "the offset arithmetic across imports (processImports, findByIDInImports, Adjust) — numeric; immutability of built tables is decided under C18 (OWN-IMMUT), not here, because a write that keeps the numbering (a lazily built index) does not break this property",
-		Technique:  "SSA dominance facts keyed by canonical access path (comma-ok lookup / FindByName result false before the map update); CFG reachability between import and local lookups; parameter-rooted effect summary and copy-source tracing for Build; symbols/index pair tracing at table literals",
+		Technique:  "SSA dominance facts keyed by canonical access path (comma-ok lookup / FindByName result false before the map update); CFG reachability between import and local lookups; parameter-rooted effect summary and copy-source tracing for Build; symbols/index pair tracing at table literals" + "; postcondition check of Adjust by branch facts at each return",
 		DesignRef:  "DESIGN.md §3.5, §4 C09",
-		Rules:      []Rule{rOrdFirstWins, rOrdSidBound, rImpFirst, rBuild, rIdxPair},
+		Rules:      []Rule{rOrdFirstWins, rOrdSidBound, rImpFirst, rBuild, rIdxPair, rAdjMax},
 	},
 	"C10": {
-		Decided:    "Every successful path of binaryReader.readBVM resets the context to the system table (ORD-BVMRESET); the text reader recognises an unquoted top-level $ion_1_0, resets the context on that edge and does not surface it as a value (ORD-TEXTIVM); once a top-level struct is recognised as $ion_symbol_table every exit reports 'not a user value' or an error (ORD-LSTHIDE); the symbol table reader dereferences accessor results only under the non-null precondition, so typed nulls in imports/name/version/max_id/symbols do not crash it (NIL-ACC scoped to readlocalsymboltable.go); every Reader field that can hold a resolved token is reset per value or after every assignment of the current table, so no token outlives the table it was resolved in (OWN-TOKCACHE); an import's declared max_id counts as declared from 0 upwards — only a negative or absent one falls back to the catalog (TAB-BOUNDS, readImport). The symbols list of a local symbol table yields one entry per element (ORD-APPENDEACH); a struct is a symbol table by its first annotation only (TAB-LSTFIRSTANN).",
+		Decided:    "Every successful path of binaryReader.readBVM resets the context to the system table (ORD-BVMRESET); the text reader recognises an unquoted top-level $ion_1_0, resets the context on that edge and does not surface it as a value (ORD-TEXTIVM); once a top-level struct is recognised as $ion_symbol_table every exit reports 'not a user value' or an error (ORD-LSTHIDE); the symbol table reader dereferences accessor results only under the non-null precondition, so typed nulls in imports/name/version/max_id/symbols do not crash it (NIL-ACC scoped to readlocalsymboltable.go); every Reader field that can hold a resolved token is reset per value or after every assignment of the current table, so no token outlives the table it was resolved in (OWN-TOKCACHE); an import's declared max_id counts as declared from 0 upwards — only a negative or absent one falls back to the catalog (TAB-BOUNDS, readImport). The symbols list of a local symbol table yields one entry per element (ORD-APPENDEACH); a struct is a symbol table by its first annotation only (TAB-LSTFIRSTANN). imports: $ion_symbol_table hands back nothing only on an edge that established that the reader has no current table or only the system table (ORD-APPENDCARRY).",
 		Necessary:  "A version marker that keeps the old table, a table struct surfacing as a user value, or a panic on a typed null in a table slot (F8, fixed) each break resolution against the table in force.",
 		NotDecided: "append/replace semantics, catalog fallback order, max_id trimming/padding",
-		Technique:  "SSA must-pass-through and nil-fact dataflow; forward path search from every assignment of the current table to an exit (token-holding fields); boundary extraction" + "; must-pass-through (append per loop iteration); index-constant check of the annotation compared",
+		Technique:  "SSA must-pass-through and nil-fact dataflow; forward path search from every assignment of the current table to an exit (token-holding fields); boundary extraction" + "; must-pass-through (append per loop iteration); index-constant check of the annotation compared" + "; edge-condition check of the exits of the append case",
 		DesignRef:  "DESIGN.md §3.2, §3.5, §4 C10",
-		Rules:      []Rule{rOrdBVMReset, rOrdLstHide, {"NIL-ACC", rules.NilAcc(rules.ScopeLST, 4)}, rTokCache, only(rBounds, 1, funcHas("readImport")), rTextIVM, rAppEach, rLSTAnn},
+		Rules:      []Rule{rOrdBVMReset, rOrdLstHide, {"NIL-ACC", rules.NilAcc(rules.ScopeLST, 4)}, rTokCache, only(rBounds, 1, funcHas("readImport")), rTextIVM, rAppEach, rLSTAnn, rAppCarry},
 	},
 	"C11": {
-		Decided:    "The field names and the annotation the symbol table writer emits are exactly those the symbol table reader dispatches on, max_id included (TAB-LSTFIELDS); the fixed/imported table is written before the first value (ORD-LSTFIRST); the builder consults imports and existing entries before defining a local symbol (ORD-FIRSTWINS); token text reaches the table lookup as it is — never through the '$n' interpretation, which would bypass a fixed table's 'not defined' error and emit an arbitrary ID (OWN-TEXTAUTH, binary writer obligations); with a fixed table, text it does not define ends in a non-nil error (OWN-FIXEDLST). No exported function of package ion ignores one of its named parameters, so shared tables, catalogs and options handed to a constructor or Marshal helper reach the writer (OWN-PARAMUSED).",
+		Decided:    "The field names and the annotation the symbol table writer emits are exactly those the symbol table reader dispatches on, max_id included (TAB-LSTFIELDS); the fixed/imported table is written before the first value (ORD-LSTFIRST); the builder consults imports and existing entries before defining a local symbol (ORD-FIRSTWINS); token text reaches the table lookup as it is — never through the '$n' interpretation, which would bypass a fixed table's 'not defined' error and emit an arbitrary ID (OWN-TEXTAUTH, binary writer obligations); with a fixed table, text it does not define ends in a non-nil error (OWN-FIXEDLST). No exported function of package ion ignores one of its named parameters, so shared tables, catalogs and options handed to a constructor or Marshal helper reach the writer (OWN-PARAMUSED). Every table sst.Adjust(n) returns has max_id n (TAB-ADJUSTMAX); lst.WriteTo writes one list element per entry of the table's symbols (ORD-APPENDEACH, writer obligation).",
 		Necessary:  "An import declaration the reader does not understand leaves every imported ID unresolvable; a table after the first value or a local redefinition of imported text emits IDs the stream does not (minimally) define.",
 		NotDecided: "ID arithmetic across imports; minimality of the emitted table beyond lookup-before-add",
-		Technique:  tabTech + "; SSA dominance for ORD; call-graph fixed point and value flow for OWN-TEXTAUTH; copy-source and path search rules for the builder and the writer" + "; SSA referrer check of exported functions' parameters",
+		Technique:  tabTech + "; SSA dominance for ORD; call-graph fixed point and value flow for OWN-TEXTAUTH; copy-source and path search rules for the builder and the writer" + "; SSA referrer check of exported functions' parameters" + "; postcondition check of Adjust; must-pass-through of a write per loop iteration",
 		DesignRef:  "DESIGN.md §3.4, §3.5, §4 C11",
-		Rules:      []Rule{rLstFields, rOrdLstFirst, rOrdFirstWins, only(rTextAuth, 2, posHas("ion/binarywriter.go")), rImpFirst, rBuild, rWrCache, rIdxPair, rFixedLST, rParamUse},
+		Rules:      []Rule{rLstFields, rOrdLstFirst, rOrdFirstWins, only(rTextAuth, 2, posHas("ion/binarywriter.go")), rImpFirst, rBuild, rWrCache, rIdxPair, rFixedLST, rParamUse, rAdjMax, only(rAppEach, 1, funcHas("WriteTo"))},
 	},
 	"C12": {
 		Decided:    "For all 24 error-returning Writer methods on each writer implementation: the sticky error is tested before any effect on the writer (ERR-GUARD-W) and every returned error is the sticky error (ERR-STICKY-W); every value opened is closed on each success path (ORD-VALUE); Finish re-arms the binary writer before every success exit (ORD-REARM); every panicking pop on the writer-side stacks is dominated by a non-emptiness fact (ORD-POPGUARD, writer obligations); nothing in the writer implementation reachable from the Writer methods consults a time-, random- or schedule-dependent source and every map range there has an order-insensitive body (OWN-NONDET, functions outside marshal.go, fields.go and the command); an exit that refuses a call with an unrecorded UsageError (Finish away from the top level) is reached before any effect on the writer (REFUSE-PURE-W); closing a container reaches clear() before every exit that may succeed, so a pending field name or annotation never leaks to a later value (ORD-ENDCLEAR); the binary writer keeps no text-to-ID memory that outlives its symbol table builder (OWN-WRCACHE). The text writer forgets an owed separator only on a path that writes to the output (ORD-SEPSTATE). A slice emptied by reslicing is not stored into a writer field while a value read from the same field is still used, so pending annotations set aside during the symbol table's emission are not overwritten (OWN-RESLICE0).",
@@ -371,12 +380,12 @@ var registry = map[string]*Property{
 		},
 	},
 	"C20": {
-		Decided:    "In cmd/ion-go: a possibly-nil accessor result (typed null) is dereferenced only where known non-nil and is not passed to a callee that dereferences it unguarded (NIL-ACC, NIL-ARG scoped to the command); the copy loop never extracts 64 bits from a big.Int without IsInt64/IsUint64 and never narrows a number out of range (NUM-BIG, NUM-NARROW scoped to the command); it never hands a token's text to a '$n'-interpreting Writer method (OWN-TEXTAUTH, command obligations); every Writer value method is called only under the reader Type() it writes, every accessor only under the type it reads, every Ion type has a writing arm and typed nulls go to WriteNullType on the IsNull() edge (TAB-COPYLOOP); every map field the command's writers assign into is initialised where the struct is built (NIL-MAP). Under each IntSize() case of the copy loop the accessor reached is wide enough (TAB-INTSIZE); output files are opened with O_TRUNC, O_APPEND or O_EXCL (TAB-OPENFLAGS).",
+		Decided:    "In cmd/ion-go: a possibly-nil accessor result (typed null) is dereferenced only where known non-nil and is not passed to a callee that dereferences it unguarded (NIL-ACC, NIL-ARG scoped to the command); the copy loop never extracts 64 bits from a big.Int without IsInt64/IsUint64 and never narrows a number out of range (NUM-BIG, NUM-NARROW scoped to the command); it never hands a token's text to a '$n'-interpreting Writer method (OWN-TEXTAUTH, command obligations); every Writer value method is called only under the reader Type() it writes, every accessor only under the type it reads, every Ion type has a writing arm and typed nulls go to WriteNullType on the IsNull() edge (TAB-COPYLOOP); every map field the command's writers assign into is initialised where the struct is built (NIL-MAP). Under each IntSize() case of the copy loop the accessor reached is wide enough (TAB-INTSIZE); output files are opened with O_TRUNC, O_APPEND or O_EXCL (TAB-OPENFLAGS). SymbolToken.Text is dereferenced in the command only under a nil test of the same path (NIL-FIELD, cmd scope).",
 		Necessary:  "The copy loop reads every scalar through the nil-returning accessors; an unguarded dereference is a panic on null.int and friends (part of F22, fixed).",
 		NotDecided: "output equivalence, event stream well-formedness (which text helper renders which type), reporting of write failures (11 write errors are assigned to a shadowed err and lost), the panic(err) calls in stringify/symbolify/clobify",
-		Technique:  "SSA must-dataflow of nil facts with inferred callee preconditions; enum value-set dataflow of the reader Type() at every Reader accessor and Writer method call of the copy loop; branch-fact dominance for big.Int extraction; value flow for OWN-TEXTAUTH" + "; enum value-set dataflow of IntSize(); constant flag check of os.OpenFile",
+		Technique:  "SSA must-dataflow of nil facts with inferred callee preconditions; enum value-set dataflow of the reader Type() at every Reader accessor and Writer method call of the copy loop; branch-fact dominance for big.Int extraction; value flow for OWN-TEXTAUTH" + "; enum value-set dataflow of IntSize(); constant flag check of os.OpenFile" + "; branch-fact dataflow for nil-if-unknown fields",
 		DesignRef:  "DESIGN.md §3.2, §4 C20",
-		Rules:      []Rule{{"NIL-ACC", rules.NilAcc(rules.ScopeCmd, 1)}, {"NIL-ARG", rules.NilArg(rules.ScopeCmd, 1)}, {"NUM-BIG", rules.NumBig(rules.ScopeCmd, 0)}, {"NUM-NARROW", rules.NumNarrow(rules.ScopeCmd, nil, 0)}, only(rTextAuth, 0, posHas("cmd/")), rCopyLoop, {"NIL-MAP", rules.NilMap(rules.ScopeCmd, 1)}, rIntSize, rOpenFl},
+		Rules:      []Rule{{"NIL-ACC", rules.NilAcc(rules.ScopeCmd, 1)}, {"NIL-ARG", rules.NilArg(rules.ScopeCmd, 1)}, {"NUM-BIG", rules.NumBig(rules.ScopeCmd, 0)}, {"NUM-NARROW", rules.NumNarrow(rules.ScopeCmd, nil, 0)}, only(rTextAuth, 0, posHas("cmd/")), rCopyLoop, {"NIL-MAP", rules.NilMap(rules.ScopeCmd, 1)}, rIntSize, rOpenFl, {"NIL-FIELD", rules.NilField(rules.ScopeCmd, 0)}},
 	},
 }
 
@@ -403,6 +412,13 @@ var devRules = map[string]Rule{
 	"OWN-RESLICE0":    rReslice0,
 	"TAB-ESCRUNE":     rEscRune,
 	"OWN-ENCPURE":     rEncPure,
+	"TAB-OVERRUN":     rOverrun,
+	"NIL-FIELD-CMD":   {"NIL-FIELD", rules.NilField(rules.ScopeCmd, 0)},
+	"ORD-APPENDCARRY": rAppCarry,
+	"OWN-SYMQUOTE":    rSymQuote,
+	"TAB-ADJUSTMAX":   rAdjMax,
+	"TAB-LENCOUNT":    rLenCount,
+	"NUM-NARROW-TU":   {"NUM-NARROW", rules.NumNarrow(rules.Scope{Name: "textutils.go", Pkgs: []string{"ion"}, Files: []string{"textutils.go"}}, nil, 0)},
 	"NUM-NARROW":      {"NUM-NARROW", rules.NumNarrow(rules.ScopeNum, rules.NarrowResiduals, 0)},
 	"NUM-SHIFT":       {"NUM-SHIFT", rules.NumShift(rules.ScopeNum, rules.ShiftResiduals, 0)},
 	"NUM-EXP32":       {"NUM-EXP32", rules.NumArith32(rules.ScopeNum, nil, 0)},
